@@ -312,4 +312,43 @@ theorem first_exact {orig fin : Nat → Option String} {L : List Nat} (hf : Firs
   refine hinj a (by rw [e, eA]; simp) v (by rw [e]; simp) hav ?_
   rw [keep, ha, hfv]
 
+
+/-- node names through the whole pass, **without** the scoping rule -/
+theorem fixModel_nodes : ∀ (tops : List Top) (w : World), InitsOk w →
+    (∀ t ∈ tops, Closed w.initOf t ∧ (allNodes t.body).Nodup) →
+    tops.Pairwise (fun a b => ∀ n ∈ allNodes a.body, n ∉ allNodes b.body) →
+    ∀ t ∈ tops, ∀ L ∈ allNodeScopes t.tr,
+      InjT (fixModel w tops).1.nname L ∧ KeptOn w.nname (fixModel w tops).1.nname L ∧ FirstB w.nname (fixModel w tops).1.nname L
+  | [], _, _, _, _ => fun t ht => by simp at ht
+  | t :: ts, w, h, hyp, hdisj => by
+    obtain ⟨hcl, hnd⟩ := hyp t List.mem_cons_self
+    have inv := fixTop_TInv h hcl
+    rw [fixModel_cons inv.nr]
+    have hio : (fixTop w t).toWorld.initOf = w.initOf := inv.io
+    rw [List.pairwise_cons] at hdisj
+    have hyp' : ∀ t' ∈ ts, Closed (fixTop w t).toWorld.initOf t' ∧ (allNodes t'.body).Nodup :=
+      fun t' ht' => by rw [hio]; exact hyp t' (List.mem_cons_of_mem _ ht')
+    obtain ⟨_, fn⟩ := fixModel_frame ts (fixTop w t).toWorld inv.ok hyp'
+    have nd := fixTop_nodes inv.nr hnd
+    intro t0 ht0 L hL
+    have hsub : ∀ m ∈ L, m ∈ allNodes t0.body := by
+      intro m hm
+      have := allNodeScopes_sub t0.tr L hL m hm
+      simpa [Top.tr, allNodes] using this
+    rcases List.mem_cons.mp ht0 with rfl | ht0
+    · have e : ∀ m ∈ L, (fixModel (fixTop w t0).toWorld ts).1.nname m = (fixTop w t0).nname m :=
+        fun m hm => fn m (fun t' ht' => hdisj.1 t' ht' m (hsub m hm))
+      refine ⟨(⟨(nd.1 L hL).inj, (nd.1 L hL).named⟩ : InjT (fixTop w t0).nname L).of_eq e, ?_, (nd.1 L hL).first.fin_eq e⟩
+      intro n hn h1 h2
+      show (fixModel (fixTop w t0).toWorld ts).1.nname n = w.nname n
+      rw [e n hn]; exact (nd.1 L hL).kept n hn h1 h2
+    · obtain ⟨i1, k1, f1⟩ := fixModel_nodes ts (fixTop w t).toWorld inv.ok hyp' hdisj.2 t0 ht0 L hL
+      have e : ∀ m ∈ L, (fixTop w t).nname m = w.nname m :=
+        fun m hm => nd.2 m (fun hc => hdisj.1 t0 ht0 m hc (hsub m hm))
+      refine ⟨i1, ?_, f1.orig_eq (fun m hm => (e m hm).symm)⟩
+      intro n hn h1 h2
+      have := k1 n hn (by rw [e n hn]; exact h1) (fun u hu hun => by rw [e u hu, e n hn]; exact h2 u hu hun)
+      show (fixModel (fixTop w t).toWorld ts).1.nname n = w.nname n
+      rw [this]; exact e n hn
+
 end IrVerif.Names
